@@ -58,6 +58,14 @@ FOCI18 = [
 ]
 if N >= 18:
     FOCI = FOCI18
+FOCI20 = [
+ "an error-path or clean-up refactor: errors compared with errors.Is / errors.As instead of == (or the reverse), an error wrapped or re-classified (temporary vs fatal, EOF vs unexpected EOF), an early return added that skips a release / reset / flush, a defer moved, a clean-up made idempotent in a way that skips it the one time it is needed",
+ "client compatibility work: the server is made friendlier to one particular client (JDBC, psycopg, libpq pipeline mode, pgbouncer, a PostgreSQL-version-specific behaviour) - tolerating something that client sends, answering in the order it expects, adding a message it likes - and the accommodation is wrong for other traffic the property quantifies over",
+ "defensive hardening that overshoots or undershoots: a new validation, limit, timeout, sanitisation or normalisation (of names, lengths, counts, encodings, identifiers, parameters) that is applied at one site and not at its twin, or rejects / alters a legitimate boundary input, or is applied after the value was already used",
+ "observability work: logging, metrics, tracing, debug hooks or context values added along the hot path - something is read for the log that is not safe to read there (shared state, a buffer still being filled, bytes consumed from the reader), formatted in a way that mutates it, stored beyond its lifetime, or the log call changes the order of effects",
+]
+if N >= 20:
+    FOCI = FOCI20
 props = [json.loads(l) for l in open('/verif/properties.jsonl')]
 earlier = {}
 for f in sorted(glob.glob('/verif/seeded/*/meta.json')):
